@@ -122,6 +122,65 @@ fn scaling_case(idx: u64) -> Option<Case> {
     Some(Case::new(ev, s, Val::default_for(ev)))
 }
 
+/// Every function nested inside itself / a partner in the first and in the last argument position, as deep as
+/// 256 characters allow: a construct that evaluates (or re-parses) a child twice needs 2^depth steps.
+fn nesting_cases() -> &'static Vec<Case> {
+    static CELL: OnceLock<Vec<Case>> = OnceLock::new();
+    CELL.get_or_init(|| {
+        let mut out = Vec::new();
+        for ev in Ev::ALL {
+            let fs = vocab::funcs(ev);
+            for f in &fs {
+                let partners: Vec<&str> = match f.canon {
+                    "min" => vec!["min", "max"],
+                    "max" => vec!["max", "min"],
+                    _ => vec![f.name],
+                };
+                for partner in partners {
+                    for first in [true, false] {
+                        if f.arity == vocab::Arity::One && !first {
+                            continue;
+                        }
+                        let mut depth = 1usize;
+                        loop {
+                            // build f(g(f(g(... 1 ...),2),2),2)
+                            let mut s = String::from("1");
+                            for d in 0..depth {
+                                let name = if d % 2 == 0 { f.name } else { partner };
+                                s = match (f.arity, first) {
+                                    (vocab::Arity::One, _) => format!("{}({})", name, s),
+                                    (_, true) => format!("{}({},2)", name, s),
+                                    (_, false) => format!("{}(2,{})", name, s),
+                                };
+                            }
+                            if char_len(&s) > 256 {
+                                break;
+                            }
+                            if depth % 3 == 0 || depth < 4 {
+                                out.push(Case::new(ev, s, Val::default_for(ev)));
+                            }
+                            depth += 1;
+                        }
+                    }
+                }
+            }
+            // operators and brackets nested on the left and on the right
+            for (open, close) in [("(", ")"), ("-(", ")"), ("2*(", ")"), ("(", ")*2"), ("(", ")^2"), ("2^(", ")"), ("(", ")!"), ("⌊", "⌋"), ("2(", ")")] {
+                if (open.contains('⌊') && !vocab::has_floor_brackets(ev)) || (close.contains('!') && !vocab::has_fact(ev)) {
+                    continue;
+                }
+                for depth in [1usize, 2, 4, 8, 16, 24, 32, 48, 64, 84, 100, 127] {
+                    let s = format!("{}1{}", open.repeat(depth), close.repeat(depth));
+                    if char_len(&s) <= 256 {
+                        out.push(Case::new(ev, s, Val::default_for(ev)));
+                    }
+                }
+            }
+        }
+        out
+    })
+}
+
 /// Smallest subtree (by the reference parse) that exceeds its own budget: its head names the construct.
 fn localise(ev: Ev, input: &str, ph: &Val) -> String {
     // cheap path: exactly one looping construct occurs in the text
@@ -160,7 +219,7 @@ impl Prop for C02Prop {
         "C02"
     }
     fn rule(&self) -> String {
-        "Cases are (evaluator, input, placeholder); the verif_hooks counter (one tick per lexer step, parser step/loop iteration, eval call and evaluator loop iteration) is armed with exactly 4096+256*len(input). Exhaustive: every looping construct (x!, x!!, ilog, w, lambert_w, gcd, lcm, ^, pow, root, shifts, aggregates of 1..40 args) x every argument tuple from the extreme pool (0,1,2,0.5,1.2,1.0000001,170,171,1e18,60- and 400-digit literals,-1,1/0,-1/0,0/0,@ with every placeholder) per evaluator; length-scaling families n=1..256; then random trees over boundary operands, near-miss mutants and raw strings. non-trivial = at least one value-driven evaluator loop iteration was executed or len>=64; distinct by (evaluator,input,placeholder).".into()
+        "Cases are (evaluator, input, placeholder); the verif_hooks counter (one tick per lexer step, parser step/loop iteration, eval call and evaluator loop iteration) is armed with exactly 4096+256*len(input). Exhaustive: every looping construct (x!, x!!, ilog, w, lambert_w, gcd, lcm, ^, pow, root, shifts, aggregates of 1..40 args) x every argument tuple from the extreme pool (0,1,2,0.5,1.2,1.0000001,170,171,1e18,60- and 400-digit literals,-1,1/0,-1/0,0/0,@ with every placeholder) per evaluator; length-scaling families n=1..256; nesting families: every function nested in itself (min/max also alternating) in the first and in the last argument position and every bracket/operator shell, to every depth that fits 256 characters; then random trees over boundary operands, near-miss mutants and raw strings. non-trivial = at least one value-driven evaluator loop iteration was executed or len>=64; distinct by (evaluator,input,placeholder).".into()
     }
     fn assumptions(&self) -> Vec<String> {
         vec![
@@ -172,6 +231,7 @@ impl Prop for C02Prop {
         vec![
             Sub { name: "loops", kind: SubKind::Enum { count: loop_cases().len() as u64 } },
             Sub { name: "scaling", kind: SubKind::Enum { count: 50 * 256 } },
+            Sub { name: "nesting", kind: SubKind::Enum { count: nesting_cases().len() as u64 } },
             Sub { name: "tree", kind: SubKind::Random { cases: tier.pick(300_000, 20_000_000), len: 160 } },
             Sub { name: "mutant", kind: SubKind::Random { cases: tier.pick(200_000, 10_000_000), len: 160 } },
             Sub { name: "raw", kind: SubKind::Random { cases: tier.pick(200_000, 10_000_000), len: 120 } },
@@ -181,6 +241,7 @@ impl Prop for C02Prop {
         match sub {
             "loops" => loop_cases().get(idx as usize).cloned(),
             "scaling" => scaling_case(idx),
+            "nesting" => nesting_cases().get(idx as usize).cloned(),
             _ => None,
         }
     }
